@@ -144,7 +144,7 @@ func raceSession(rng *rand.Rand, stats map[string]int64) (vs []Violation, conclu
 			}
 		}
 		send(pos)
-		ponder := false
+		ponder, selfEnding := false, false
 		var goLine string
 		switch k := rng.IntN(7); {
 		case k == 0:
@@ -157,14 +157,27 @@ func raceSession(rng *rand.Rand, stats map[string]int64) (vs []Violation, conclu
 			goLine = fmt.Sprintf("go wtime %d btime %d winc %d binc %d", 1+rng.IntN(3000), 1+rng.IntN(3000), rng.IntN(50), rng.IntN(50))
 		case k == 4:
 			goLine = "go infinite"
-		default:
+		case k == 5:
 			ponder = ponderOn
 			goLine = fmt.Sprintf("go ponder wtime %d btime %d", 20+rng.IntN(2000), 20+rng.IntN(200000))
+		default:
+			// a ponder search that ends by itself (this engine answers as soon as
+			// the depth is reached): the ponderhit below then arrives just before,
+			// at, or just after the end of the search (wave 12)
+			ponder = ponderOn
+			selfEnding = true
+			goLine = fmt.Sprintf("go ponder depth %d", 1+rng.IntN(4))
 		}
 		send(goLine)
 		searches++
 		stats["race_searches"]++
 		hit := false
+		if ponder && selfEnding && rng.IntN(3) != 0 {
+			nap(pick(rng, []int{0, 0, 0, 20, 200}))
+			send("ponderhit")
+			hit = true
+			stats["fault_ponderhit_at_search_end"]++
+		}
 		for k, n := 0, rng.IntN(6); k < n; k++ {
 			nap(pick(rng, []int{0, 50, 500, 5000}))
 			switch x := rng.IntN(10); {
